@@ -320,11 +320,43 @@ def r5(ctx, R):
                 cvar = st.targets[0].id
         cut = False
         if cvar:
+            cfg = ctx.cfg(p)
+            cuts = set()
             for st in ctx.m.walk_own(p.node):
-                if isinstance(st, ast.If) and unparse(st.test) in (f"{cvar} >= 0", f"{cvar} > -1", f"{cvar} != -1") and st.lineno < c.lineno:
-                    for b in st.body:
-                        if isinstance(b, ast.Assign) and unparse(b.targets[0]) == X and isinstance(b.value, ast.Subscript) and isinstance(b.value.slice, ast.Slice) and b.value.slice.lower is None and b.value.slice.upper is not None and unparse(b.value.slice.upper) == cvar and unparse(b.value.value) == X:
-                            cut = True
+                if not isinstance(st, ast.Assign):
+                    continue
+                pairs = []
+                for t in st.targets:
+                    if isinstance(t, ast.Tuple) and isinstance(st.value, ast.Tuple) and len(t.elts) == len(st.value.elts):
+                        pairs += list(zip(t.elts, st.value.elts))
+                    else:
+                        pairs.append((t, st.value))
+                for t, v in pairs:
+                    if unparse(t) == X and isinstance(v, ast.Subscript) and isinstance(v.slice, ast.Slice) and v.slice.lower is None and v.slice.upper is not None and unparse(v.slice.upper) == cvar and unparse(v.value) == X and cfg.node_of(st) is not None:
+                        cuts.add(cfg.node_of(st).id)
+            tests = [st for st in ctx.m.walk_own(p.node) if isinstance(st, ast.If) and unparse(st.test) in (f"{cvar} >= 0", f"{cvar} > -1", f"{cvar} != -1", f"{cvar} < 0", f"{cvar} == -1") and st.lineno < c.lineno]
+            target = cfg.node_of(c)
+            for st in tests:
+                found_arm = st.body if unparse(st.test) in (f"{cvar} >= 0", f"{cvar} > -1", f"{cvar} != -1") else st.orelse
+                if not found_arm:
+                    continue
+                start = cfg.node_of(found_arm[0])
+                if start is None or target is None:
+                    continue
+                # can the split be reached from the comment-found arm without passing a cut?
+                seen, stack, leak = set(), [start.id], False
+                while stack:
+                    i = stack.pop()
+                    if i in seen:
+                        continue
+                    seen.add(i)
+                    if i in cuts:
+                        continue
+                    if i == target.id:
+                        leak = True
+                        break
+                    stack.extend(t for t, lab in cfg.nodes[i].succs if lab != "exc")
+                cut = not leak
         if cut:
             R.ok("C13.R5", p.short, f"`{X}` is cut at the comment start before the split", loc(p, c))
         else:
